@@ -16,6 +16,14 @@ CHECKS = {
         "are sampled.",
    note="Progress bound is generous and stated in the evidence; deadlock beyond sampled states is not excluded.",
    tech="deterministic simulation, online handshake-stability invariant, bounded liveness after schedule faults stop"),
+ "C16": dict(cat="exploration", ref="DESIGN.md 5.C16",
+   text="Seeded search over header definitions, data widths, packet lists, valid/ready schedules and selector changes for "
+        "Packetizer, Depacketizer, their round trip, PacketFIFO, Arbiter and Dispatcher on the real simulator; outputs "
+        "compared with a byte-level framing reference written from the Header definition plus atomicity/destination "
+        "checks. Sampling, not proof.",
+   note="Trusted: framing reference in props/c16.py. Assumes >=1 payload beat per packet, header >= one data word "
+        "(shorter: listed known finding), packets <= PacketFIFO payload depth.",
+   tech="deterministic simulation, seeded schedule/selector-change search, byte-level framing reference"),
 }
 
 NOT_APPLICABLE = {
